@@ -4081,6 +4081,19 @@ fn generate_base(prop: &str, tier: &str, seed: u64) -> Vec<String> {
             for (i, img) in cross_layouts().iter().enumerate() {
                 out.push(format!("dec {} {}", ["000", "111", "010", "101"][i % 4], hex(img)));
             }
+            // a bare AVP list is not bound by a 16-bit Length: more records than any message can hold (10922 six-octet
+            // ones fill 65535 octets), one and two past that
+            for count in [10922usize, 10923, 10924] {
+                let mut l: Vec<u8> = Vec::with_capacity(6 * count + 8);
+                for i in 0..count {
+                    if i == 5000 {
+                        l.extend_from_slice(&[0x01, 8, 0, 0, 0, 10, 0, 4]);
+                    } else {
+                        l.extend_from_slice(&[0x01, 6, 0, 0, 0, 39]);
+                    }
+                }
+                out.push(format!("avps {}", hex(&l)));
+            }
         }
         "C02" => {
             decode_stream(&r, &mut out, n(25000, 1200000), true);
@@ -4299,6 +4312,14 @@ fn generate_base(prop: &str, tier: &str, seed: u64) -> Vec<String> {
         }
         "C19" => {
             c19_stream(&r, &mut out, n(6000, 100000));
+            // encoding from a destructor while the thread unwinds
+            {
+                let ur = Rng::new(seed, "unwinding");
+                for i in 0..n(60, 600) {
+                    let m = if i % 3 == 2 { gen_data(&ur, true) } else { gen_control(&ur, 4, false) };
+                    out.push(format!("encunw {}", m.render()));
+                }
+            }
             for t in big_controls(&r) {
                 out.push(format!("enc . {}", t.render()));
                 out.push(format!("rt {}", t.render()));
